@@ -369,6 +369,96 @@ theorem C17_ace_label_case_insensitive (l l' : Str)
 theorem C17_non_ace_label_untouched (l : Str) (h : isAcePrefixFold l = false) :
     lowerACELabel l = l := by simp [lowerACELabel, h]
 
+/-! ## every address `Valid` accepts has a lookup key -/
+
+theorem validDomain_toUnicode_ok (P : Prims) (d : Str) (h : validDomain P d = true) :
+    (dnsToUnicode P d).2 = true := by
+  unfold validDomain at h
+  split at h
+  · cases h
+  · split at h
+    · cases h
+    · split at h
+      · cases h
+      · split at h
+        · cases h
+        · rename_i hu; simpa using hu
+
+/-- A valid address with a domain part: the domain has a DNS lookup key. -/
+theorem C17_valid_dns_key (P : Prims) (a m d : Str) (ha : split a = .ok (m, d)) (hd : d ≠ [])
+    (hv : valid P a = true) : (dnsToUnicode P d).2 = true ∧ (dnsForLookup P d).2 = true := by
+  have ed : d.isEmpty = false := by cases d <;> simp_all
+  have hvd : validDomain P d = true := by
+    unfold valid at hv
+    split at hv
+    · cases hv
+    · simp [ha, ed] at hv; exact hv.2
+  have hu := validDomain_toUnicode_ok P d hvd
+  refine ⟨hu, ?_⟩
+  unfold dnsForLookup
+  cases hq : dnsToUnicode P d with
+  | mk u ok => rw [hq] at hu; simp at hu; subst hu; simp
+
+/-- **C17 (valid ⇒ key).** Every address `address.Valid` accepts gets a lookup key: `ForLookup`
+does not fail — for any primitives (no law needed: `ValidDomain` asks `dns.ToUnicode` itself). -/
+theorem C17_valid_has_key (P : Prims) (a : Str) (hv : valid P a = true) :
+    (forLookup P a).2 = true := by
+  unfold forLookup
+  split
+  · rfl
+  · cases hs : split a with
+    | error e => unfold valid at hv; split at hv <;> simp [hs] at hv
+    | ok p =>
+      obtain ⟨m, d⟩ := p
+      simp only
+      by_cases ed : d.isEmpty = true
+      · simp [ed]
+      · have ed' : d.isEmpty = false := by simpa using ed
+        have hd : d ≠ [] := by intro h; subst h; simp at ed'
+        have := (C17_valid_dns_key P a m d hs hd hv).2
+        simp only [ed', Bool.false_eq_true, ↓reduceIte]
+        cases hq : dnsForLookup P d with
+        | mk dk ok =>
+          rw [hq] at this; simp at this; subst this
+          simp only [Bool.not_true, Bool.false_eq_true, ↓reduceIte]
+          split <;> rfl
+
+/-- Same for `CleanDomain` (the empty-domain case, `postmaster`, asks the IDNA primitive about the
+empty string: hypothesis `hE`). -/
+theorem C17_valid_cleanDomain_ok (P : Prims) (a : Str) (hE : (P.toUnicode []).2 = true)
+    (hv : valid P a = true) : (cleanDomain P a).2 = true := by
+  unfold cleanDomain
+  split
+  · rfl
+  · cases hs : split a with
+    | error e => unfold valid at hv; split at hv <;> simp [hs] at hv
+    | ok p =>
+      obtain ⟨m, d⟩ := p
+      simp only
+      by_cases ed : d.isEmpty = true
+      · have : d = [] := by simpa using ed
+        subst this
+        have h0 : dnsToUnicode P [] = P.toUnicode [] := by
+          simp [dnsToUnicode, lowerACE, splitDots, splitDotsAux, joinDots, lowerACELabel, isAcePrefixFold]
+        rw [h0]
+        cases hq : P.toUnicode [] with
+        | mk u ok => rw [hq] at hE; simp at hE; subst hE; simp
+      · have ed' : d.isEmpty = false := by simpa using ed
+        have hd : d ≠ [] := by intro h; subst h; simp at ed'
+        have := (C17_valid_dns_key P a m d hs hd hv).1
+        cases hq : dnsToUnicode P d with
+        | mk u ok => rw [hq] at this; simp at this; subst this; simp [ed']
+
+/-- A domain the IDNA decoder rejects (after ACE-prefix lower-casing) is not a valid domain, however
+its ACE prefix is spelled. -/
+theorem C17_undecodable_domain_invalid (P : Prims) (d : Str) (h : (P.toUnicode (lowerACE d)).2 = false) :
+    validDomain P d = false := by
+  cases hv : validDomain P d with
+  | false => rfl
+  | true =>
+    have := validDomain_toUnicode_ok P d hv
+    simp [dnsToUnicode, h] at this
+
 /-! ## Non-vacuity -/
 
 /-- An ASCII-only instance of the primitives (identity NFC, ASCII lower-casing, no punycode). -/
@@ -385,6 +475,10 @@ example : equal asciiPrims ex1 ex2 = true ∧ ex1 ≠ ex2 := by decide
 example : key asciiPrims (key asciiPrims ex1) = key asciiPrims ex1 := by decide
 example : unquoteMbox (quoteMbox [97, 32, 34, 64, 92, 98]) = .ok [97, 32, 34, 64, 92, 98] := by rfl
 example : split ex1 = .ok ([66, 111, 98], [69, 120, 97, 109, 112, 108, 101, 46, 79, 82, 71]) := by rfl
+example : valid asciiPrims ex1 = true ∧ (forLookup asciiPrims ex1).2 = true := by decide
+-- "a b@example.org" is not valid unquoted, `"a b"@example.org` is
+example : valid asciiPrims ([97, 32, 98] ++ ex2.drop 3) = false ∧
+    valid asciiPrims ([34, 97, 32, 98, 34] ++ ex2.drop 3) = true := by decide
 -- "XN--A.De" -> "xn--a.De"
 example : lowerACE [88, 78, 45, 45, 65, 46, 68, 101] = [120, 110, 45, 45, 97, 46, 68, 101] := by decide
 
